@@ -29,14 +29,6 @@ func init() {
 			st.assume("(not (obj_nil " + o.T + "))")
 			return []Val{&PtrV{Opaque: o}}, nil
 		})
-	reg("math/big::(*Int).Sub", "big_sub(x, y) (uninterpreted)", func(e *Engine, st *State, fr *Frame, a []Val, fn *ssa.Function, c *ssa.CallCommon) ([]Val, []*State) {
-		x, y := opaqueOf(a[1]), opaqueOf(a[2])
-		if x == nil || y == nil {
-			unsupported("big.Int.Sub on %s, %s", valString(a[1]), valString(a[2]))
-		}
-		e.C.DeclareFun("big_sub", []Sort{"Obj", "Obj"}, "Obj")
-		return []Val{&PtrV{Opaque: mk("Obj", fmt.Sprintf("(big_sub %s %s)", x.T, y.T))}}, nil
-	})
 }
 
 // IterateConsensusStateAscending(store, cb): the prefix iterator is not modelled. Over-approximation: either the
